@@ -1166,7 +1166,7 @@ func (m *Machine) Server(out []h2wire.Frame, started []Start) []Violation {
 				s.OwnResp = false
 				why := "srv-rst(" + code.String() + ")"
 				if e != nil && !e.dead && f.Stream == e.Stream {
-					why += " answering " + e.Desc
+					why += " answering " + answeredClass(e.Desc)
 				}
 				m.close(s, why)
 			}
@@ -1319,10 +1319,45 @@ func (m *Machine) Server(out []h2wire.Frame, started []Start) []Violation {
 }
 
 func (m *Machine) stateForStart(st Start) string {
-	if m.cur != nil && (strings.HasPrefix(m.cur.Desc, "HEADERS") || strings.HasPrefix(m.cur.Desc, "CONTINUATION")) {
-		return m.cur.Desc
+	if m.cur != nil && m.cur.Stream == st.Stream && (strings.HasPrefix(m.cur.Desc, "HEADERS") || strings.HasPrefix(m.cur.Desc, "CONTINUATION")) {
+		return strings.Replace(m.cur.Desc, "CONTINUATION-end:", "HEADERS/", 1)
 	}
-	return "stream in state " + m.StateOf(st.Stream)
+	return "HEADERS/" + m.StateOf(st.Stream)
+}
+
+// answeredClass abstracts the class of a client frame that drew a stream error, for close reasons (and through them for signatures):
+// frame type plus the coarse reason the RFC gives for rejecting it.
+func answeredClass(desc string) string {
+	typ := strings.SplitN(strings.SplitN(desc, "/", 2)[0], ":", 2)[0]
+	if typ == "CONTINUATION-end" {
+		typ = "HEADERS"
+	}
+	cause := ""
+	switch {
+	case strings.Contains(desc, "/bad-padding"):
+		cause = "header-syntax" // §6.2 padding
+	case strings.Contains(desc, "/malformed:"):
+		cls := desc[strings.Index(desc, "/malformed:")+len("/malformed:"):]
+		if i := strings.IndexByte(cls, '/'); i >= 0 {
+			cls = cls[:i]
+		}
+		switch cls {
+		case "missing-pseudo", "connection-specific", "bad-connect":
+			cause = "request-semantics" // §8.1.2.2, §8.1.2.3, §8.3
+		default:
+			cause = "header-syntax" // §8.1.2, §8.1.2.1 field names, pseudo-header placement
+		}
+	case strings.Contains(desc, "/self-dependency"):
+		cause = "self-dependency"
+	case strings.Contains(desc, "/over-limit"):
+		cause = "over-limit"
+	case strings.Contains(desc, "/trailers"):
+		cause = "trailers"
+	}
+	if cause != "" {
+		return typ + "[" + cause + "]"
+	}
+	return typ
 }
 
 func (m *Machine) serverEnd(s *Stream) {
